@@ -64,47 +64,69 @@ def check_release(ctx: Context, rep, rule: str) -> None:
 
 
 def check_epoch(ctx: Context, rep, rule: str) -> None:
+    from sa.norm import expand
     single = ctx.fn(f"{RG}._single_iter")
-    ctor = [c for c in single.calls() if ast.unparse(c.func).endswith(
-        "_sedpack_rs.RustIter")]
-    if len(ctor) != 1:
-        raise AnalysisError("C15.repeat: RustIter construction not found")
-    c = ctor[0]
+    cls = single.cls
+    # the construction may sit in _single_iter or in a private helper of the
+    # class that _single_iter calls
+    sites = [(m, c) for m in cls.methods.values() for c in m.calls()
+             if ast.unparse(c.func).endswith("_sedpack_rs.RustIter")]
+    if len(sites) != 1:
+        raise AnalysisError(f"{rule}: RustIter construction not found "
+                            f"({len(sites)} sites)")
+    owner, c = sites[0]
+    if owner is not single and not any(
+            t is owner for call in single.calls()
+            for t in ctx.internal_targets(single, call)):
+        raise AnalysisError(f"{rule}: {owner.qualname} builds the native "
+                            "iterator but _single_iter does not call it")
     kw = {k.arg: k.value for k in c.keywords}
     rep.ob(rule, isinstance(kw.get("repeat"), ast.Constant) and
-           kw["repeat"].value is False, loc=single.loc(c),
-           where=single.qualname,
+           kw["repeat"].value is False, loc=owner.loc(c),
+           where=owner.qualname,
            construct=f"RustIter(repeat={short(kw.get('repeat'))})",
            message="literal repeat=False")
-    rep.ob(rule, "compression" in ast.unparse(kw.get("compression",
-                                                             ast.Constant(0)))
-           and "dataset_structure" in ast.unparse(kw.get("compression",
-                                                         ast.Constant(0))),
-           loc=single.loc(c), where=single.qualname,
+    comp = ast.unparse(expand(owner, kw.get("compression")) or ast.Constant(0))
+    rep.ob(rule, "dataset_structure.compression" in comp,
+           loc=owner.loc(c), where=owner.qualname,
            construct=f"compression={short(kw.get('compression'))}",
            message="the decoder is chosen by the dataset's own compression")
-    rep.ob(rule, dotted(kw.get("threads")) == "self._file_parallelism",
-           loc=single.loc(c), where=single.qualname,
+    rep.ob(rule, ast.unparse(expand(owner, kw.get("threads")) or
+                             ast.Constant(0)) == "self._file_parallelism",
+           loc=owner.loc(c), where=owner.qualname,
            construct=f"threads={short(kw.get('threads'))}",
            message="thread count comes from the caller's file_parallelism")
-    files = kw.get("files")
-    # files derives from list(as_numpy_common(...)) without slicing
-    defs = {}
-    for n in single.body_nodes():
-        if isinstance(n, (ast.Assign, ast.AnnAssign)):
-            tgts = n.targets if isinstance(n, ast.Assign) else [n.target]
-            for t in tgts:
-                if isinstance(t, ast.Name) and n.value is not None:
-                    defs[t.id] = n.value
-    fdef = defs.get(files.id) if isinstance(files, ast.Name) else files
+    fdef = expand(owner, kw.get("files"))
     ok_files = isinstance(fdef, ast.Call) and isinstance(
         fdef.func, ast.Name) and fdef.func.id == "list" and len(
             fdef.args) == 1 and isinstance(fdef.args[0], ast.Call) and \
-        ast.unparse(fdef.args[0].func).endswith("as_numpy_common")
-    rep.ob(rule, bool(ok_files), loc=single.loc(c), where=single.qualname,
+        ast.unparse(fdef.args[0].func).endswith("as_numpy_common") and \
+        "self." not in ast.unparse(fdef.args[0].func).replace(
+            "self._dataset.", "")
+    rep.ob(rule, bool(ok_files), loc=owner.loc(c), where=owner.qualname,
            construct=f"files={short(fdef, 60)}",
            message="the native reader gets every selected shard path, in "
-           "order")
+           "order, computed freshly for this epoch")
+    # the freshly built iterator becomes self._rust_iter when there is none
+    assigns = [n for n in single.body_nodes() if isinstance(n, ast.Assign) and
+               dotted(n.targets[0]) == "self._rust_iter" and not (
+                   isinstance(n.value, ast.Constant) and n.value.value is None)]
+    ok_new = len(assigns) == 1 and (
+        assigns[0].value is c or any(
+            t is owner for t in ctx.internal_targets(single, assigns[0].value))
+        if isinstance(assigns[0].value, ast.Call) else False)
+    guard = None
+    if assigns:
+        from sa.model import ancestors
+        guard = next((a for a in ancestors(assigns[0]) if isinstance(a, ast.If)),
+                     None)
+    ok_new = ok_new and guard is not None and ast.unparse(guard.test) == \
+        "self._rust_iter is None"
+    rep.ob(rule, bool(ok_new), loc=single.loc(assigns[0]) if assigns else
+           single.loc(), where=single.qualname,
+           construct="if self._rust_iter is None: self._rust_iter = <new "
+           "native iterator>",
+           message="an epoch without a live iterator builds a new one")
     # epoch: after the pass the iterator is dropped and forgotten
     tail = [n for n in single.node.body[-2:]]
     ok_tail = len(tail) == 2 and "__exit__" in ast.unparse(tail[0]) and \
@@ -114,7 +136,6 @@ def check_epoch(ctx: Context, rep, rule: str) -> None:
            construct="; ".join(short(t) for t in tail),
            message="each epoch ends by releasing the native iterator so the "
            "next epoch builds a fresh one")
-
 
 
 def run(ctx: Context, rep) -> None:
